@@ -10,7 +10,10 @@ import (
 // every ground application that occurs, and leading universal quantifiers of the goal are
 // replaced by fresh constants. Pure real-arithmetic goals then reach the solvers' complete
 // nonlinear procedures.
-func (o *Obligation) SMTGround(timeoutMs int, seed int, realsOnly bool) string {
+func (o *Obligation) SMTGround(timeoutMs int, seed int, variant int) string {
+	realsOnly := variant == 0
+	keepReads := variant == 2
+	opaqueDefs := variant == 3 // reads abstracted, non-recursive ghost definitions left uninterpreted
 	vc := o.vc
 	var b strings.Builder
 	fmt.Fprintf(&b, "(set-option :timeout %d)\n(set-option :smt.random_seed %d)\n", timeoutMs, seed)
@@ -36,6 +39,79 @@ func (o *Obligation) SMTGround(timeoutMs int, seed int, realsOnly bool) string {
 		b.WriteByte('\n')
 	}
 	all := strings.Join(kept, "\n") + "\n" + goal + "\n" + o.PC.S
+	// ground instances of the definitional axioms of ghost functions (g!f args) at the applications that occur
+	defs := vc.defAxioms(o.NFacts)
+	// non-recursive definitions are inlined, so that pure arithmetic goals stay free of uninterpreted functions
+	inlineDefs := func(text string) string {
+		for round := 0; round < 8; round++ {
+			changed := false
+			for _, d := range defs {
+				if d.rhs == "" {
+					continue
+				}
+				for _, app := range findApps(text, "("+d.head+" ") {
+					args := splitTop(app[1 : len(app)-1])[1:]
+					if len(args) != len(d.vars) {
+						continue
+					}
+					rhs := d.rhs
+					for i, v := range d.vars {
+						rhs = replaceToken(rhs, v, args[i])
+					}
+					if strings.Contains(rhs, "(forall ") || strings.Contains(rhs, "(exists ") {
+						continue
+					}
+					text = strings.ReplaceAll(text, app, rhs)
+					changed = true
+				}
+			}
+			if !changed {
+				break
+			}
+		}
+		return text
+	}
+	pcInl := o.PC.S
+	if !keepReads && !opaqueDefs {
+		goal = inlineDefs(goal)
+		pcInl = inlineDefs(o.PC.S)
+		for i := range kept {
+			kept[i] = inlineDefs(kept[i])
+		}
+	}
+	all = strings.Join(kept, "\n") + "\n" + goal + "\n" + pcInl
+	seenDef := map[string]bool{}
+	for round := 0; round < 3 && len(defs) > 0; round++ {
+		var add []string
+		for _, d := range defs {
+			for _, app := range findApps(all, "("+d.head+" ") {
+				if seenDef[app] {
+					continue
+				}
+				seenDef[app] = true
+				if opaqueDefs && d.rhs != "" {
+					continue
+				}
+				args := splitTop(app[1 : len(app)-1])[1:]
+				if len(args) != len(d.vars) {
+					continue
+				}
+				body := d.body
+				for i, v := range d.vars {
+					body = replaceToken(body, v, args[i])
+				}
+				if strings.Contains(body, "(forall ") || strings.Contains(body, "(exists ") {
+					continue
+				}
+				add = append(add, body)
+			}
+		}
+		if len(add) == 0 {
+			break
+		}
+		kept = append(kept, add...)
+		all += "\n" + strings.Join(add, "\n")
+	}
 	// ground instances of rd! and sqrt definitions, to a fixpoint (rd terms may nest)
 	seen := map[string]bool{}
 	var inst []string
@@ -79,20 +155,35 @@ func (o *Obligation) SMTGround(timeoutMs int, seed int, realsOnly bool) string {
 		}
 		return ""
 	}
+	absPrefixes := []string{"(rd!", "(sqrt "}
+	if opaqueDefs {
+		// opaque (non-recursive) ghost functions become constants too: the goal is then pure arithmetic
+		for _, d := range defs {
+			if d.rhs != "" {
+				absPrefixes = append(absPrefixes, "("+d.head+" ")
+			}
+		}
+	}
 	abstract := func(text string) string {
 		for round := 0; round < 6; round++ {
 			changed := false
-			for _, prefix := range []string{"(rd!", "(sqrt "} {
+			for _, prefix := range absPrefixes {
 				for _, app := range findApps(text, prefix) {
 					// innermost first: skip apps that still contain another abstractable app
 					inner := app[1:]
-					if strings.Contains(inner, "(rd!") || strings.Contains(inner, "(sqrt ") {
+					nested := false
+					for _, p2 := range absPrefixes {
+						if strings.Contains(inner, p2) {
+							nested = true
+						}
+					}
+					if nested {
 						continue
 					}
 					name, ok := abs[app]
 					if !ok {
 						srt := "Real"
-						if prefix == "(rd!" {
+						if prefix != "(sqrt " {
 							srt = rdSort(app)
 						}
 						if srt != "Real" && srt != "Int" && srt != "Bool" {
@@ -116,21 +207,76 @@ func (o *Obligation) SMTGround(timeoutMs int, seed int, realsOnly bool) string {
 		}
 		return text
 	}
-	inst = nil
+	if keepReads {
+		abstract = func(text string) string { return text }
+	} else {
+		inst = nil
+	}
 	goal = abstract(goal)
-	pcs := abstract(o.PC.S)
+	pcs := abstract(pcInl)
 	for i := range kept {
 		kept[i] = abstract(kept[i])
 	}
 	for i := 0; i < len(inst); i++ {
 		inst[i] = abstract(inst[i])
 	}
+	cand := append(append([]string{}, kept...), inst...)
+	if opaqueDefs {
+		// minimal context: facts guarded by the obligation's own path condition (or a conjunct of it) are
+		// taken unguarded, only facts sharing a symbol directly with the goal are kept, and the path
+		// condition itself is not asserted (all sound: hypotheses are only dropped or implied)
+		realsOnly = true
+		implied := map[string]bool{pcs: true}
+		for changed := true; changed; {
+			changed = false
+			for _, f := range cand {
+				// (= pc!N (and A B ...)) with pc!N implied makes A, B, ... implied
+				if !strings.HasPrefix(f, "(= pc!") {
+					continue
+				}
+				parts := splitTop(f[3 : len(f)-1])
+				if len(parts) != 2 || !implied[parts[0]] || !strings.HasPrefix(parts[1], "(and ") {
+					continue
+				}
+				for _, cj := range splitTop(parts[1][5 : len(parts[1])-1]) {
+					if !implied[cj] {
+						implied[cj] = true
+						changed = true
+					}
+				}
+			}
+		}
+		goalSyms := map[string]bool{}
+		for _, t := range symbolsOf(goal) {
+			goalSyms[t] = true
+		}
+		var keep2 []string
+		for _, f := range cand {
+			if strings.HasPrefix(f, "(=> ") {
+				parts := splitTop(f[4 : len(f)-1])
+				if len(parts) == 2 && implied[parts[0]] {
+					f = parts[1]
+				}
+			}
+			hit := false
+			for _, t := range symbolsOf(f) {
+				if goalSyms[t] {
+					hit = true
+					break
+				}
+			}
+			if hit {
+				keep2 = append(keep2, f)
+			}
+		}
+		cand = keep2
+		pcs = "true"
+	}
 	// cone of influence over constant symbols
 	rel := map[string]bool{}
 	for _, t := range symbolsOf(goal + " " + pcs) {
 		rel[t] = true
 	}
-	cand := append(append([]string{}, kept...), inst...)
 	used := make([]bool, len(cand))
 	for changed := true; changed; {
 		changed = false
@@ -298,4 +444,80 @@ func findApps(s, prefix string) []string {
 		}
 		i = j + len(prefix)
 	}
+}
+
+
+type defAxiom struct {
+	head string
+	vars []string
+	body string
+	rhs  string // non-recursive definition: the application can be replaced by rhs
+}
+
+// defAxioms extracts the keyed definitional axioms of the form
+// (forall (binders) (! BODY :pattern ((g!f v1 ... vn)))) whose single trigger is the application of an
+// uninterpreted ghost function to exactly the bound variables.
+func (vc *VC) defAxioms(nfacts int) []defAxiom {
+	var out []defAxiom
+	for i := 0; i < nfacts && i < len(vc.facts); i++ {
+		if _, keyed := vc.factKeys[i]; !keyed {
+			continue
+		}
+		f := vc.facts[i]
+		if !strings.HasPrefix(f, "(forall (") {
+			continue
+		}
+		parts := splitTop(f[8 : len(f)-1])
+		if len(parts) != 2 || !strings.HasPrefix(parts[1], "(! ") {
+			continue
+		}
+		inner := splitTop(parts[1][3 : len(parts[1])-1])
+		// inner = [BODY, :pattern, (pat), ...]
+		if len(inner) != 3 || inner[1] != ":pattern" {
+			continue
+		}
+		pats := splitTop(inner[2][1 : len(inner[2])-1])
+		if len(pats) != 1 || !strings.HasPrefix(pats[0], "(g!") {
+			continue
+		}
+		pp := splitTop(pats[0][1 : len(pats[0])-1])
+		var vars []string
+		isVar := map[string]bool{}
+		for _, bd := range splitTop(parts[0][1 : len(parts[0])-1]) {
+			nv := splitTop(bd[1 : len(bd)-1])
+			if len(nv) == 2 {
+				isVar[nv[0]] = true
+			}
+		}
+		ok := len(pp)-1 == len(isVar)
+		for _, a := range pp[1:] {
+			if !isVar[a] {
+				ok = false
+			}
+			vars = append(vars, a)
+		}
+		if !ok {
+			continue
+		}
+		body := inner[0]
+		// non-recursive definitions: drop the link to the lower fuel level (it only duplicates the body)
+		if strings.HasPrefix(body, "(and ") {
+			cj := splitTop(body[5 : len(body)-1])
+			if len(cj) == 2 && strings.HasPrefix(cj[1], "(= "+pats[0]+" (") {
+				lower := splitTop(cj[1][3 : len(cj[1])-1])
+				if len(lower) == 2 {
+					lh := splitTop(lower[1][1 : len(lower[1])-1])[0]
+					if !strings.Contains(cj[0], "("+lh+" ") {
+						body = cj[0]
+					}
+				}
+			}
+		}
+		rhs := ""
+		if pre := "(= " + pats[0] + " "; strings.HasPrefix(body, pre) && body != inner[0] {
+			rhs = body[len(pre) : len(body)-1]
+		}
+		out = append(out, defAxiom{head: pp[0], vars: vars, body: body, rhs: rhs})
+	}
+	return out
 }
